@@ -6,6 +6,7 @@ import GruleModel.Proofs.LexTokens
 import GruleModel.Proofs.LexFixed
 import GruleModel.Proofs.RealLiterals
 import GruleModel.Proofs.ParseSim
+import GruleModel.Proofs.ParseNorm
 import GruleModel.Syntax.Front
 import GruleModel.Valid
 namespace Grule.LexDoc
@@ -307,6 +308,63 @@ theorem lex_parse_doc (rules : List Rule) (h : ∀ r ∈ rules, WFRule Covered r
   rw [hl]
   exact real_parseDoc canonOt canonDT rules (fun r hr => ⟨(h r hr).1, descOK r.desc (h r hr).2.2.1⟩)
 
+/-- **Whitespace and comments never change what a document means**: whatever separators stand after the canonical tokens
+    of a well-formed document — each any mixture of spaces, tabs, newlines, block comments (with any content up to the
+    first `*/`) and line comments, beginning with a whitespace character — the lexer reads exactly the document's tokens,
+    without error, and the parser reads exactly the document. -/
+theorem lex_parse_layout (rules : List Rule) (h : ∀ r ∈ rules, WFRule Covered r ∧ LRule r) (seps : List (List Char))
+    (hlen : seps.length = (fDoc canonTok canonOt canonDT rules).length) (hs : ∀ sep ∈ seps, GoodSep sep) :
+    lex (renderS ((fDoc canonTok canonOt canonDT rules).zip seps)) = { toks := fDoc canonTok canonOt canonDT rules, errs := 0 } ∧
+    parseDoc realDec (lex (renderS ((fDoc canonTok canonOt canonDT rules).zip seps))).toks = (rules, none) := by
+  have htok := tokDoc rules (fun r hr => (h r hr).2)
+  have hl := lex_renderS ((fDoc canonTok canonOt canonDT rules).zip seps) (by
+    intro p hp
+    obtain ⟨h1, h2⟩ := List.of_mem_zip hp
+    exact ⟨htok p.1 h1, hs p.2 h2⟩)
+  have hm : ((fDoc canonTok canonOt canonDT rules).zip seps).map (·.1) = fDoc canonTok canonOt canonDT rules :=
+    List.map_fst_zip (by omega)
+  rw [hm] at hl
+  refine ⟨hl, ?_⟩
+  rw [hl]
+  exact real_parseDoc canonOt canonDT rules (fun r hr => ⟨(h r hr).1, descOK r.desc (h r hr).2.2.1⟩)
+
+/-- **Keyword case, whitespace and comments never change what a document means**: any token list that differs from the
+    canonical tokens of a well-formed document only in the spelling of keyword tokens (`norm` maps it to the canonical
+    list; e.g. `RULE`, `When`, `tRuE` — each lexes as its keyword: `LexTokens.lexes_keyword`), laid out with any separators
+    of whitespace and comments, is lexed without error and parsed into exactly the document. -/
+theorem lex_parse_anycase (rules : List Rule) (h : ∀ r ∈ rules, WFRule Covered r ∧ LRule r) (ts' : List Token)
+    (hnorm : ts'.map ParseNorm.norm = fDoc canonTok canonOt canonDT rules) (hlex : ∀ t ∈ ts', Lexes t)
+    (seps : List (List Char)) (hlen : seps.length = ts'.length) (hs : ∀ sep ∈ seps, GoodSep sep) :
+    (lex (renderS (ts'.zip seps))).errs = 0 ∧ parseDoc realDec (lex (renderS (ts'.zip seps))).toks = (rules, none) := by
+  have hl := lex_renderS (ts'.zip seps) (by
+    intro p hp
+    obtain ⟨h1, h2⟩ := List.of_mem_zip hp
+    exact ⟨hlex p.1 h1, hs p.2 h2⟩)
+  have hm : (ts'.zip seps).map (·.1) = ts' := List.map_fst_zip (by omega)
+  rw [hm] at hl
+  rw [hl]
+  refine ⟨rfl, ?_⟩
+  simp only
+  rw [← ParseNorm.parseDoc_norm, hnorm]
+  exact real_parseDoc canonOt canonDT rules (fun r hr => ⟨(h r hr).1, descOK r.desc (h r hr).2.2.1⟩)
+
+theorem goodSep_cons (c : Char) (more : List Char) (hc : isWs c = true) (hm : Skips more) : GoodSep (c :: more) :=
+  ⟨c, more, rfl, hc, by
+    have := skips_app [c] more (skips_ws c hc) hm
+    simpa using this⟩
+
+/-- separators built from whitespace and comments -/
+theorem goodSep_examples :
+    GoodSep ['\n', '\t', ' '] ∧ GoodSep (" /* c; } \" ' */ ".toList) ∧ GoodSep (" // rule when then {\n".toList) := by
+  refine ⟨?_, ?_, ?_⟩
+  · exact goodSep_cons '\n' ['\t', ' '] (by decide) (skips_app ['\t'] [' '] (skips_ws _ (by decide)) (skips_ws _ (by decide)))
+  · have e : " /* c; } \" ' */ ".toList = ' ' :: (('/' :: '*' :: (" c; } \" ' ".toList ++ ['*', '/'])) ++ [' ']) := by decide +kernel
+    rw [e]
+    exact goodSep_cons ' ' _ (by decide) (skips_app _ _ (skips_block _ (by decide +kernel)) (skips_ws _ (by decide)))
+  · have e : " // rule when then {\n".toList = ' ' :: ('/' :: '/' :: (" rule when then {".toList ++ ['\n'])) := by decide +kernel
+    rw [e]
+    exact goodSep_cons ' ' _ (by decide) (skips_line _ (by decide +kernel))
+
 -- non-vacuity: the sample rule of `Proofs/ParseDoc` meets every hypothesis ----------------------------------------------------
 
 theorem lexName_of (s : String) (c : Char) (w : List Char) (hs : s.toList = c :: w) (hc : isISC c = true)
@@ -420,7 +478,41 @@ mutual
     | .cons e rest, h => by simp only [LArgs] at h; simp only [validArgs, validE_of e h.1, validArgs_of rest h.2, Bool.and_self]
 end
 
+/-- the sample rule with its keywords in other capitalisations -/
+def shout (t : Token) : Token :=
+  match t.kind with
+  | .kRule => ⟨.kRule, "RULE".toList⟩
+  | .kWhen => ⟨.kWhen, "When".toList⟩
+  | .kThen => ⟨.kThen, "tHEN".toList⟩
+  | .kSalience => ⟨.kSalience, "SaLiEnCe".toList⟩
+  | _ => t
+
+theorem shout_lexes (t : Token) (h : Lexes t) : Lexes (shout t) := by
+  unfold shout
+  split
+  · exact lexes_keyword .kRule "rule" (by decide +kernel) _ (by decide +kernel)
+  · exact lexes_keyword .kWhen "when" (by decide +kernel) _ (by decide +kernel)
+  · exact lexes_keyword .kThen "then" (by decide +kernel) _ (by decide +kernel)
+  · exact lexes_keyword .kSalience "salience" (by decide +kernel) _ (by decide +kernel)
+  · exact h
+
+theorem sample_anycase (seps : List (List Char))
+    (hlen : seps.length = ((fDoc canonTok canonOt canonDT [sampleRule]).map shout).length) (hs : ∀ sep ∈ seps, GoodSep sep) :
+    parseDoc realDec (lex (renderS (((fDoc canonTok canonOt canonDT [sampleRule]).map shout).zip seps))).toks = ([sampleRule], none) :=
+  (lex_parse_anycase [sampleRule] (by intro r hr; simp only [List.mem_singleton] at hr; subst hr; exact sample_ok) _
+    (by decide +kernel)
+    (by
+      intro t ht
+      simp only [List.mem_map] at ht
+      obtain ⟨t0, ht0, rfl⟩ := ht
+      exact shout_lexes t0 (tokDoc [sampleRule] (by intro r hr; simp only [List.mem_singleton] at hr; subst hr; exact sample_ok.2) t0 ht0))
+    seps hlen hs).2
+
+#print axioms lex_parse_anycase
+#print axioms sample_anycase
 #print axioms lex_parse_doc
+#print axioms lex_parse_layout
+#print axioms goodSep_examples
 #print axioms validE_of
 #print axioms front_docText
 #print axioms sample_roundtrip
